@@ -149,6 +149,15 @@ def run(chk: Check) -> None:
     n_log = 3000 if thorough else 600
     for fr in frames[:n_log]:
         t += td(microseconds=rnd.randrange(1, 3_000_000))
+        k = rnd.random()
+        if k < 0.12:  # clocks of coarser grain: whole seconds, whole milliseconds, the extremes of the fraction
+            t = t.replace(microsecond=0)
+        elif k < 0.20:
+            t = t.replace(microsecond=rnd.randrange(1000) * 1000)
+        elif k < 0.24:
+            t = t.replace(microsecond=rnd.choice((1, 10, 999999, 100000)))
+        if expected and t <= expected[-1][0]:
+            t = expected[-1][0] + td(seconds=1)
         rssi = rnd.choice(("...", "000", "045", "099"))
         comment = rnd.choice(("", "", "note", "evofw3 0.7.1", "a # b * c < d", " padded "))
         try:
@@ -173,6 +182,7 @@ def run(chk: Check) -> None:
     chk.extra["log_packets_written"] = len(expected)
     chk.extra["log_packets_replayed"] = len(got_l)
     # every written line must come back through from_file exactly
+    seen = set()
     for ln in lines:
         if not ln.strip() or ln.startswith("#"):
             continue
@@ -189,8 +199,16 @@ def run(chk: Check) -> None:
         except Exception:  # noqa: BLE001 -> C01
             continue
         key = (p.dtm, str(p))
+        seen.add(key)
         if key not in exp_map or exp_map[key] != p._rssi:
             chk.violation("log.line:" + ln, f"log line {ln!r} reads back as {p.dtm} {p._rssi} {p}", {"op": "log", "line": ln})
+    # ... and every packet that was logged must be among them (none lost, whatever its timestamp)
+    for a, b, c in expected:
+        if (a, c) not in seen:
+            chk.violation(f"log.lost:us={a.microsecond == 0 and 'whole-second' or 'other'}", f"packet {a.isoformat()} {b} {c!r} was logged but the "
+                          f"log file does not give it back (line: {[ln for ln in lines if c in ln][:1]})", {"op": "log", "frame": c, "dtm": a.isoformat()})
+            break
+    chk.extra["log_whole_second_stamps"] = sum(1 for a, _, _ in expected if a.microsecond == 0)
     chk.monitor("fromtimestamp(timestamp(d)) == d", False)
     for _ in range(20000):
         d = dt(2000, 1, 1) + td(microseconds=rnd.randrange(50 * 365 * 86400 * 10**6))
